@@ -34,6 +34,11 @@ type Program struct {
 
 // Load type-checks the given patterns under dir (default ./...) with the real build's
 // flags and builds SSA for the root packages (dependencies from export data).
+// Overlay, when set before Load, replaces (or adds) source files by absolute path: the
+// analysed program is the tree at dir with these files substituted. Used by the
+// thorough tier to analyse a seeded change without copying the tree.
+var Overlay map[string][]byte
+
 func Load(dir string, patterns ...string) (*Program, error) {
 	if len(patterns) == 0 {
 		patterns = []string{"./..."}
@@ -41,10 +46,11 @@ func Load(dir string, patterns ...string) (*Program, error) {
 	env := os.Environ()
 	env = append(env, "GOFLAGS=-mod=mod", "GOPROXY=off", "GOSUMDB=off", "GOTOOLCHAIN=local", "GOWORK=off")
 	cfg := &packages.Config{
-		Mode:  packages.LoadSyntax | packages.NeedModule,
-		Dir:   dir,
-		Env:   env,
-		Tests: false,
+		Mode:    packages.LoadSyntax | packages.NeedModule,
+		Dir:     dir,
+		Env:     env,
+		Tests:   false,
+		Overlay: Overlay,
 	}
 	pkgs, err := packages.Load(cfg, patterns...)
 	if err != nil {
